@@ -479,6 +479,7 @@ package trie
 //@ extern func github.com/NethermindEth/juno/core/felt.(*Felt).SetBytes
 //@   requires len(e) == 32
 //@   modifies *z
+//@   ensures result == z
 //@   ensures *z == feltOfBits(concat(e[0], e[1], e[2], e[3], e[4], e[5], e[6], e[7], e[8], e[9], e[10], e[11], e[12], e[13], e[14], e[15], e[16], e[17], e[18], e[19], e[20], e[21], e[22], e[23], e[24], e[25], e[26], e[27], e[28], e[29], e[30], e[31]))
 //@ extern func github.com/NethermindEth/juno/core/felt.(*Felt).SetUint64
 //@   modifies *z
@@ -520,3 +521,34 @@ package trie
 //@   purecallback hashFn
 //@   ensures leaf: parentKey == nil && nodeKey.len == 0 ==> result == *n.Value && calls(hashFn) == old(calls(hashFn))
 //@   ensures inner: parentKey != nil && parentKey.len + 1 < nodeKey.len ==> calls(hashFn) == old(calls(hashFn)) + 1 && result == feltAdd(ret(hashFn), feltOfUint(zext(nodeKey.len - (parentKey.len + 1), 64)))
+
+// ================================================================================================
+// C10: Merkle proof verification (legacy trie)
+// ================================================================================================
+// The hash function is a pure callback: cbapp(hash, a, b) is its value on (a, b).
+//@ func (*Binary).Hash
+//@   props C10
+//@   arith bv
+//@   requires b != nil && b.LeftHash != nil && b.RightHash != nil
+//@   purecallback hash
+//@   ensures result == cbapp(hash, *b.LeftHash, *b.RightHash)
+//@ func (*Edge).Hash
+//@   props C10
+//@   arith bv
+//@   requires e != nil && e.Child != nil && e.Path != nil
+//@   purecallback hash
+//@   ensures result == feltAdd(cbapp(hash, *e.Child, feltOfBits(val(e.Path))), feltOfBits(zext(e.Path.len, 256)))
+
+// An edge with path p (n bits) matches a klen-bit key k at position pos (position 0 is the most
+// significant bit) iff the key without its first pos bits and the path agree on their common
+// length. For an edge that fits (n <= klen - pos) this says: the n key bits at pos equal p.
+//@ pure func edgeMatches(k bv256, klen uint8, pos uint8, p bv256, n uint8) bool = ((k & ones(klen - pos)) >> ((klen - pos) - min(klen - pos, n))) == (p >> (n - min(klen - pos, n)))
+//@ func verifyEdgePath
+//@   props C10
+//@   arith bv
+//@   requires key != nil && edgePath != nil && wf(key) && wf(edgePath)
+//@   ensures matches: curPos <= key.len ==> (result <==> edgeMatches(val(key), key.len, curPos, val(edgePath), edgePath.len))
+// Two 256-bit barrel shifters whose operands are equal only through the callees' postconditions:
+// no installed solver decides this for all lengths in reasonable time (20-50 s even with every
+// heap read abstracted); within the bound it takes a second.
+//@   bounded matches: key.len <= 16 && edgePath.len <= 16
